@@ -115,7 +115,7 @@ func Predict(op *Op) *Expected {
 		// stream-turn logs are not level-filtered by the collector
 		logs := st.Logs
 		switch st.Act {
-		case "emit", "emitunsealable": // (on a pipe the state is never serialised)
+		case "emit", "emitunsealable", "iceptretry": // (on a pipe the state is never serialised)
 			rows := 1
 			if st.Rows > 1 {
 				rows = st.Rows
@@ -135,7 +135,7 @@ func Predict(op *Op) *Expected {
 		case "panic", "emitpanic":
 			ex.Turns = append(ex.Turns, ExpTurn{Kind: "error", ErrType: "RuntimeError", ErrAny: true, ErrMsg: hx.PanicText(st.Panic, s.Nonce)})
 			return ex
-		case "noemit", "double":
+		case "noemit", "double", "iceptswallow":
 			ex.Turns = append(ex.Turns, ExpTurn{Kind: "error", ErrType: "RuntimeError", ErrAny: true})
 			return ex
 		default:
